@@ -436,11 +436,15 @@ def execute(ctx: RunCtx) -> None:
     ctx.steps += baton.yields
     picks = "".join(n[1:] + "." for n in baton.pick_trace)
     log.add("sched", policy, n_tasks, baton.yields, baton.picks, baton.switches, hashlib.sha256(picks.encode()).hexdigest()[:16])
-    ctx.sig_parts = [cfg, fault_cfg, use_psim, prime, picks, (nT, ppart, ppol)]
+    ctx.sig_parts = [cfg, fault_cfg, use_psim, prime, picks, baton.delivered, (nT, ppart, ppol)]
     ctx.nontrivial = (n_tasks >= 2 and baton.switches >= 1) or bool(ctx.faults)
     ctx.sample["schedule"] = {"policy": policy, "tasks": n_tasks, "yield_points": baton.yields, "picks": baton.picks, "switches": baton.switches,
                               "backend_calls": calls["n"]}
     ctx.probe("workers_spawned", n_tasks)
+    if baton.delivered != sorted(baton.delivered):
+        ctx.probe("completion_order_not_submission_order")
+    if baton.delivered_while_running:
+        ctx.probe("consumer_ran_between_completions", baton.delivered_while_running)
     if n_tasks < cfg["n_workers"]:
         ctx.probe("more_workers_than_seeds")
     # ---- outcome classification
